@@ -701,6 +701,66 @@ def r7(k: Kit) -> None:
               f'{n} states', str(bad), val.loc(val.node))
 
 
+def r8(k: Kit) -> None:
+    """Signed authenticator fields are verified as received."""
+    rep = k.rep
+    idx = k.idx
+    rep.rule('C16.R8', 'security-key verify_ssh: every variable that enters '
+             'the data handed to the primitive\'s verify() and was read from '
+             'the signature blob reaches that call with the plain '
+             'packet.get_*() read as its only definition (not masked, '
+             'clamped or defaulted): the flags byte and the counter are '
+             'covered by the authenticator\'s signature bit for bit, so '
+             'every single-bit edit of them must fail')
+    n = 0
+    for q in ('sk_eddsa._SKEd25519Key.verify_ssh',
+              'sk_ecdsa._SKECDSAKey.verify_ssh'):
+        fi = k.func(q)
+        g = k.cfg(fi)
+        rd = k.rd(fi)
+        sites = [(nd, c) for nd, c in k.call_nodes(
+            fi, lambda c: is_call(c, 'verify') and
+            dotted(c.func.value) == 'self._key')]
+        rep.floor('C16.R8', f'primitive verify in {fi.cls.name}',
+                  len(sites), 1)
+        reads = {}
+        for nd in g.nodes:
+            for nm, v in rd.defs[nd.id]:
+                if v is not None and any(
+                        isinstance(x, ast.Call) and
+                        isinstance(x.func, ast.Attribute) and
+                        dotted(x.func.value) == 'packet' and
+                        x.func.attr in ('get_byte', 'get_uint32',
+                                        'get_uint64')
+                        for x in ast.walk(v)):
+                    reads.setdefault(nm, []).append((nd.id, v))
+        for nd, c in sites:
+            used = set()
+            for a in c.args:
+                used |= names_read(a)
+            from ..flow import depends_on
+            deps = set()
+            for a in c.args:
+                deps |= depends_on(g, rd, nd.id, a)
+            for nm in sorted(deps & set(reads)):
+                n += 1
+                ds = rd.defs_of(nd.id, nm)
+                plain = all(
+                    any(d == did and isinstance(v, ast.Call) and
+                        isinstance(v.func, ast.Attribute) and
+                        dotted(v.func.value) == 'packet'
+                        for did, v in reads[nm]) for d in ds)
+                rep.check(plain, 'C16.R8', key(fi, f'{nm} verified as read'),
+                          'only definition is the packet read',
+                          f'`{nm}` is altered between the blob and the '
+                          'signed data ('
+                          + '; '.join(norm(v)[:40] for _, v in reads[nm]) +
+                          '): edits of the bits that are masked away still '
+                          'verify, and genuine signatures over other flag '
+                          'values are refused', k.loc(fi, nd))
+    rep.floor('C16.R8', 'signed authenticator fields', n, 4)
+
+
 def run(idx, rep, tier):
     k = Kit(idx, rep)
     rep.assumptions += NOT_DECIDED
@@ -712,3 +772,4 @@ def run(idx, rep, tier):
     r5(k)
     r6(k)
     r7(k)
+    r8(k)
